@@ -103,7 +103,7 @@ def configs(tier):
 
 
 def tasks(tier):
-    ts = [("config", k) for k in range(len(configs(tier)))] + [("en-width",), ("init-frame",), ("async-reset-domain",)]
+    ts = [("config", k) for k in range(len(configs(tier)))] + [("en-width",), ("init-frame",), ("async-reset-domain",), ("tb-row-access",)]
     ts += [("rtlil", k) for k in range(len(configs(tier)))]
     ts += [("behaviour", k) for k in range(len(configs(tier)))]
     # the storage class itself (the contracts the configurations above rely on)
@@ -617,6 +617,80 @@ def check_init_frame():
     return {"task": "init-frame", "paths": 0, "solver_s": 0.0, "obligations": obs}
 
 
+def check_tb_row_access():
+    """Direct row access from a testbench reads and writes the SAME storage the ports see: for memories with 0, 1 and 2 write
+    ports, after ctx.set(mem.data[i], v) an asynchronous read port addressing row i outputs v at once, a synchronous read
+    port captures v at its next edge, ctx.get(mem.data[i]) returns v, and the other rows are unchanged -- every row and every
+    value of the shape (exhaustive for the listed sizes), whole-row and slice writes; a row written through a write port is
+    what ctx.get(mem.data[i]) returns.  Real Simulator."""
+    from amaranth.hdl import Module, Shape
+    from amaranth.lib.memory import Memory
+    from amaranth.sim import Simulator
+    obs = []
+    for n_wr in (0, 1, 2):
+        for (w, sgn, depth) in ((2, False, 3), (3, True, 2)):
+            init = [(k + 1) % (1 << (w - 1)) for k in range(depth)]
+            mem = Memory(shape=Shape(w, sgn), depth=depth, init=init)
+            wps = [mem.write_port() for _ in range(n_wr)]
+            rpa = mem.read_port(domain="comb")
+            rps = mem.read_port(domain="sync")
+            m = Module()
+            m.submodules.mem = mem
+            bad = []
+            lo, hi = (-(1 << (w - 1)), 1 << (w - 1)) if sgn else (0, 1 << w)
+
+            async def tb(ctx, mem=mem, rpa=rpa, rps=rps, wps=wps, depth=depth, bad=bad, lo=lo, hi=hi, w=w, sgn=sgn):
+                def note(what, **kw):
+                    if not bad:
+                        bad.append({"what": what, **kw})
+                for i in range(depth):
+                    for v in range(lo, hi):
+                        before = [ctx.get(mem.data[k]) for k in range(depth)]
+                        ctx.set(rpa.addr, i)
+                        ctx.set(rps.addr, i)
+                        ctx.set(mem.data[i], v)
+                        if ctx.get(rpa.data) != v:
+                            note("asynchronous read port does not output the row the testbench just wrote", row=i, written=v, port=ctx.get(rpa.data))
+                        if ctx.get(mem.data[i]) != v:
+                            note("row reads back differently", row=i, written=v, read=ctx.get(mem.data[i]))
+                        others = [ctx.get(mem.data[k]) for k in range(depth)]
+                        if any(others[k] != before[k] for k in range(depth) if k != i):
+                            note("another row changed", row=i, written=v, before=before, after=others)
+                        await ctx.tick()
+                        if ctx.get(rps.data) != v:
+                            note("synchronous read port did not capture the row the testbench wrote", row=i, written=v, port=ctx.get(rps.data))
+                        # slice write: only the addressed bits of the row change
+                        ctx.set(mem.data[i][0:1], 1 - (v & 1))
+                        want = (v & ~1) | (1 - (v & 1))
+                        if sgn and want >= (1 << (w - 1)):
+                            want -= 1 << w
+                        if sgn and want < -(1 << (w - 1)):
+                            want += 1 << w
+                        if ctx.get(mem.data[i]) != want or ctx.get(rpa.data) != want:
+                            note("slice write through a row", row=i, row_before=v, expected=want, row_after=ctx.get(mem.data[i]), async_port=ctx.get(rpa.data))
+                    if wps:
+                        ctx.set(wps[-1].addr, i)
+                        ctx.set(wps[-1].data, lo)
+                        ctx.set(wps[-1].en, 1)
+                        await ctx.tick()
+                        ctx.set(wps[-1].en, 0)
+                        if ctx.get(mem.data[i]) != lo:
+                            note("row written through a write port reads differently from the testbench", row=i, written=lo, read=ctx.get(mem.data[i]))
+            sim = Simulator(m)
+            sim.add_clock(1e-6)
+            sim.add_testbench(tb)
+            try:
+                sim.run()
+            except Exception as e:
+                if not bad:
+                    bad.append({"raised": repr(e)[:300]})
+            nm = f"tb-row-access[write_ports={n_wr},w={w},signed={sgn},depth={depth}]"
+            obs.append({"name": f"{nm}::same-storage", "kind": "post", "status": "proved" if not bad else "refuted", "backend": "closed", "time_s": 0.0,
+                        **({} if not bad else {"failing_input": {**bad[0], "memory": f"Memory(shape={Shape(w, sgn)!r}, depth={depth}) with {n_wr} write ports, a comb and a sync read port",
+                                                                 "how": "real Simulator testbench: ctx.set(mem.data[i], v), then the read ports and ctx.get(mem.data[k])"}})})
+    return {"task": "tb-row-access", "paths": 0, "solver_s": 0.0, "obligations": obs}
+
+
 def check_async_reset_domain():
     """a memory whose ports are in a domain with an ASYNCHRONOUS reset: neither the assertion of the reset (no clock edge) nor
     a clock edge while it is asserted changes a row or a read register beyond what the ports do -- the emitted $memrd_v2 /
@@ -667,6 +741,8 @@ def run_task(task):
         return check_config(cfg, f"mem{task[1]}{cfg!r}".replace(" ", ""))
     if task[0] == "en-width":
         return check_en_width()
+    if task[0] == "tb-row-access":
+        return check_tb_row_access()
     if task[0] == "init-frame":
         return check_init_frame()
     if task[0] == "async-reset-domain":
